@@ -1,6 +1,7 @@
 // ===== prelude/base.rs — trusted stand-ins shared by every unit (listed in TRUSTED.md) =====
 use std::cmp::Ordering;
 use std::ops::{Index, IndexMut};
+use vstd::std_specs::iter::IteratorSpec;
 
 // N14 (diverge mode): a panic aborts the handler; partial correctness = nothing to prove after it.
 #[verifier::external_body]
